@@ -123,11 +123,12 @@ fn make_case(stream: &[u32]) -> Option<Case> {
     // the corrupted unit: the assignment (or header) owning token ti; its first token
     let t_ref = ti.min(mutated.len() - 1);
     let owner = (mutated[t_ref].module, mutated[t_ref].item);
-    // a deletion at the very start of a unit may merge it into the previous one: take the
-    // start of the previous token's unit as the lower bound then
+    // a corruption at the very start of a unit (deleted, replaced or inserted first token) may
+    // equally be read as trailing junk of the previous unit: both are "the first malformed
+    // assignment", so the lower bound is the start of the previous token's unit then
     let first_of_unit = (0..mutated.len()).find(|i| (mutated[*i].module, mutated[*i].item) == owner).unwrap_or(0);
     let mut unit_start_tok = first_of_unit;
-    if (kind == 0 || kind == 1) && ti > 0 && first_of_unit >= ti.min(mutated.len() - 1) {
+    if ti > 0 && first_of_unit >= ti.min(mutated.len() - 1) {
         let prev_owner = (mutated[ti - 1].module, mutated[ti - 1].item);
         unit_start_tok = (0..mutated.len()).find(|i| (mutated[*i].module, mutated[*i].item) == prev_owner).unwrap_or(0);
     }
@@ -281,7 +282,7 @@ pub fn run(tier: Tier, seed: u64, replay: Option<String>) -> i32 {
         .into();
     ctx.assumptions = vec![
         "for deletions/replacements the mutated text may still be valid or fail later inside the same assignment: only the lower bound and the consistency clauses apply".into(),
-        "a deletion of a unit's first token may merge it with the previous unit: the lower bound is then the previous unit's first token".into(),
+        "a corruption of a unit's first token (deletion, replacement, or insertion in front of it) can equally be trailing junk of the previous unit: the lower bound is then the previous unit's first token".into(),
     ];
     let dir = tempfile::tempdir().expect("tempdir");
     let handle = |ctx: &mut Ctx, c: &Case, r: Result<(Obs, Option<String>), String>| {
